@@ -24,6 +24,7 @@ SPAN_CORPUS = [
     "for i in 0 ..= 10 .. 2 do\n    print(i)\n    # c\n\n    print(i + 1)\nprint(0)",
     "def x := 1\r\ndef y := 2\r\n",
     "a <<= 2 >>= 3 ::= 4 ..= 5 != 6 <= 7 >= 8 -> 9 => 10 // 11 ^= 12\n",
+    "def a := 1<<22 >>3 << 4\ndef b := a>>1\n",
 ]
 
 
